@@ -335,13 +335,17 @@ func concScenario(name string, iters int, seed uint64) string {
 		return "TREE: " + name + ": " + last
 	}
 	done := make(chan error, 1)
-	go func() { done <- sys.Stop(3 * time.Second) }()
+	tStop := time.Now()
+	go func() { done <- sys.Stop(30 * time.Second) }()
 	select {
 	case err := <-done:
+		if os.Getenv("VERIF_CONC_DUMP") != "" {
+			fmt.Fprintf(os.Stderr, "stop took %v err=%v\n", time.Since(tStop), err)
+		}
 		if err != nil {
 			return "TREE: " + name + ": Stop failed after the stress (every actor of the scenario had terminated): " + err.Error()
 		}
-	case <-time.After(6 * time.Second):
+	case <-time.After(40 * time.Second):
 		return "TREE: " + name + ": Stop did not return after the stress"
 	}
 	return ""
